@@ -219,7 +219,17 @@ def envelope_part(ctx, res):
             else:
                 edges.append(Task2TaskEdge(source=DatasetId(s, out), sink_task=t, sink_input_kw=None, sink_input_ps=rng.randrange(4)))
         ext = [DatasetId(n, "0") for n in names if rng.random() < 0.5]
-        return JobInstance(tasks=tasks, edges=edges, ext_outputs=ext, serdes={rstr(): (rstr(), rstr())} if rng.random() < 0.3 else {})
+        serdes = {rstr(): (rstr(), rstr())} if rng.random() < 0.3 else {}
+        if rng.random() < 0.5:
+            return JobInstance(tasks=tasks, edges=edges, ext_outputs=ext, serdes=serdes)
+        # built with defaults, then filled in place (as user code that appends outputs does): fields the
+        # model was never *assigned* must still reach the gateway
+        ji = JobInstance(tasks=tasks, edges=edges)
+        for e in ext:
+            ji.ext_outputs.append(e)
+        for k, v in serdes.items():
+            ji.serdes[k] = v
+        return ji
 
     def gen_request():
         k = rng.randrange(4)
